@@ -207,3 +207,7 @@ def _pure(V):
     finally:
         I.call_function = real
     V.ensure("pure/no-hidden-state-source-is-read", z3.BoolVal(not hidden))
+
+
+# join uses rotation_matrix_from_vectors through its C11 contract: that contract is part of this claim
+P.include(G.P, ["rotation_matrix_from_vectors[general branch]"], why="used modularly when orienting fragment B")
